@@ -10,7 +10,8 @@ CHECKS = {
     'C09': dict(cat='model_checking', ref='2/C09',
                 text='stateless exploration of the real snapshot/restore code under a deterministic scheduler: every schedule '
                      'and backend completion order with <=1 (quick) / <=2 (thorough) deviations from the default, on 30 harnesses; '
-                     'oracle: result equals source, no exception/hang, in-flight <= N, all slots returned at quiescence',
+                     'oracle: result equals source, no exception/hang, in-flight <= N, all slots returned at quiescence'
+                     ' Faults: backend calls, source reads, target writes; loop-bound asyncio primitives raced at line level when worker threads call them (two deviations).',
                 note='controlled Lock/Event/Queue/Executor/Future replacements are faithful; preemption at synchronisation '
                      'operations and backend entries (plus every line of the shared-state closures in the thorough line harnesses); N<=2',
                 technique='deviation-bounded stateless model checking of the implementation (deterministic thread + event-loop scheduler)',
@@ -26,18 +27,21 @@ CHECKS = {
     'C06': dict(cat='model_checking', ref='2/C06', engine='E2',
                 text='all add-key chains (independent/shared/clone x KDF settings incl. BLAKE2b and >64-byte passwords) up to depth '
                      '2/3 with the complete unlock matrix over passwords and near-miss passwords; all-pairs visibility, restore scope '
-                     'and refusal-before-mutation of foreign deletes; BFS over histories with every user acting against every other',
+                     'and refusal-before-mutation of foreign deletes; BFS over histories with every user acting against every other'
+                     ' Also ONE Repository object unlocked by two users in turn (every ordered pair, every state within two commands), and listings with the name column only.',
                 note='clone modelled as shared key; scrypt n in {2,4}', technique='explicit-state BFS + exhaustive key-graph enumeration'),
     'C07': dict(cat='model_checking', ref='2/C07', engine='E2',
                 text='BFS over crash-free histories: in every state chunk area == names of distinct chunks referenced (independent '
                      'reader), no payload uploaded under an existing name, families never alias; second pass with one long-lived '
-                     'Repository object per user over all histories of length <= 3/4',
+                     'Repository object per user over all histories of length <= 3/4'
+                     ' Session histories also on one Repository object that is unlocked again whenever the actor changes.',
                 note='fixed 8-byte chunks; file sets with identical files, shared prefixes, repeated blocks',
                 technique='explicit-state BFS over the real transition function'),
     'C08': dict(cat='model_checking', ref='2/C08', engine='E2',
                 text='BFS from clean and planted states (orphans per family, foreign tenant, bystander objects): delete leaves no chunk '
                      'referenced only by the deleted snapshots and removes nothing else, clean leaves exactly the referenced chunks of '
-                     'the caller family, everything foreign keeps its bytes, also when one backend deletion fails',
+                     'the caller family, everything foreign keeps its bytes, also when one backend deletion fails'
+                     ' Plus session histories on one Repository object for all users.',
                 note='fixed 8-byte chunks; foreign tenant never acts', technique='explicit-state BFS + single-fault enumeration on delete calls'),
     'C03': dict(cat='fault_enumeration', ref='2/C03', engine='E1',
                 text='(a) every prefix of every mutation sequence of snapshot/delete/clean under all completion orders (coroutine '
@@ -73,7 +77,8 @@ CHECKS = {
                 text='every bit flip, truncation length, extension, pairwise swap, replay under another name and deletion of every chunk '
                      'and snapshot object of three repositories (unencrypted, AES-GCM, ChaCha20), pairs of damages, each followed by a '
                      'restore that must raise or reproduce the original tree; also with one long-lived Repository and with a retry '
-                     'sharing the snapshot cache of the failed attempt',
+                     'sharing the snapshot cache of the failed attempt'
+                     ' Cache modes: retry with cache, cache left cut short / empty by an interrupted run.',
                 note='objects of a few hundred bytes; adversary without keys; removed snapshot object == deleted snapshot',
                 technique='exhaustive corruption enumeration'),
     'C05': dict(cat='exploration', ref='2/C05', engine='E3',
@@ -86,7 +91,8 @@ CHECKS = {
     'C14': dict(cat='exploration', ref='2/C14', engine='E3+E1',
                 text='replicat writes / independent reader decodes (trees x every cipher x hash, chunkers, KDFs, both backend kinds, all '
                      'completion orders of a snapshot with repeated chunks); independent writer emits (current and pre-1.3 metadata, '
-                     'shuffled chunk entries, empty files) / replicat restores',
+                     'shuffled chunk entries, empty files) / replicat restores'
+                     ' Plus one object writing for two independent keys in turn.',
                 note='reference reader/writer written from the documented scheme, import nothing from replicat',
                 technique='exhaustive configuration enumeration against an independent format implementation'),
     'C15': dict(cat='model_checking', ref='2/C15', engine='E2',
@@ -99,14 +105,16 @@ CHECKS = {
                 text='148 settings deviations (every primitive name right/wrong/unknown x parameter values on both sides of every limit, '
                      'mistyped, unknown keys, structure) singly and in all cross-section pairs, plus long passwords: accepted => a fresh '
                      'process unlocks, snapshots and restores a multi-chunk tree and no near-miss password unlocks; rejected => nothing '
-                     'stored; add-key with every KDF variant',
+                     'stored; add-key with every KDF variant'
+                     " Optionally another repository sharing the user's cache directory between init and first use.",
                 note='default scrypt cost lowered to n=16 in the harness for cases leaving the KDF at its default',
                 technique='exhaustive configuration enumeration (all single and pairwise deviations)'),
     'C18': dict(cat='model_checking', ref='2/C18', engine='E2',
                 text='BFS over command histories of four clients (two processes of the owner, a shared-key and an independent-key user) '
                      'with one shared or private cache directories; every transition is run with the cache, with the cache disabled '
                      '(same backend state, randomness and clock) and with each single cache entry missing / empty / truncated; '
-                     'exception class, stdout, return values, restored tree and resulting backend objects must agree',
+                     'exception class, stdout, return values, restored tree and resulting backend objects must agree'
+                     ' Name-addressed list-files/restore (live and deleted names) and stale private caches.',
                 note='one corrupted entry at a time; all prefix lengths only from selected deep states',
                 technique='explicit-state BFS with twin execution (differential oracle) and crash-state enumeration of cache entries'),
     'C19': dict(cat='exploration', ref='2/C19', engine='E3',
@@ -144,7 +152,8 @@ CHECKS = {
                 text='real Local (6 spellings of the repository path), S3Compatible and B2 (fake services, listing pages of 2) against a dict '
                      'model: every subset of 7 object names as a state (built through the adapter), in every state all observers '
                      '(exists/download/download_stream x names, list x 10 prefixes) and all 8 mutations x 7 names compared with the model '
-                     'and the raw store; plus all sequences of <=3/4 mutations over 3 names',
+                     'and the raw store; plus all sequences of <=3/4 mutations over 3 names'
+                     ' Mutation order rotates with the name; resets go through the adapter; exists() after every step of a sequence.',
                 note='fake services implement the documented wire behaviour; atomic replacement under a concurrent reader is decided by C03(b)',
                 technique='explicit-state enumeration against a reference model'),
 }
